@@ -121,8 +121,9 @@ macro_rules! default_api {
 
 pub fn run(ctx: &Ctx, rep: &mut Report) {
     rep.rule = "cases: (a) exhaustive: every u8/i8/u16/i16 value x every radix compiled in this configuration through \
-        write_with_options; (b) generated values of the wider types (uniform, log-uniform bit length, r^k-1/r^k/r^k+1, \
-        u128 chunk products, MIN/MAX edges) x every radix; (c) default API vs Display/itoa. Oracle: naive reference numeral \
+        write_with_options; (a2) enumerated 2^k + d, |d| <= 40, and negatives for the wider types x every radix; (b) generated values \
+        of the wider types (uniform, log-uniform bit length, r^k-1/r^k/r^k+1, 2^k + d, u128 chunk products incl. a first \
+        quotient of 2^64 +- 1, MIN/MAX edges) x every radix; (c) default API vs Display/itoa. Oracle: naive reference numeral \
         (repeated u128 divrem, digits 0-9A-Z), slice offset 0, exact length, canary outside an exactly FORMATTED_SIZE \
         buffer. non-trivial = numeral with >= 3 digits or negative; distinct = distinct (type, radix, value)."
         .into();
@@ -145,6 +146,31 @@ pub fn run(ctx: &Ctx, rep: &mut Report) {
         }
     });
     rep.exhaustive.push(format!("all u8/i8/u16/i16 values x {} radices (write_with_options)", radixes.len()));
+    // (a2) enumerated: binary boundaries 2^k + d, |d| <= 40, and their negatives, for every wider type x every radix (word
+    // splits and the fast-path bounds of the 128-bit division sit at powers of two whatever the radix)
+    let wide_all: [usize; 8] = [2, 3, 4, 5, 8, 9, 10, 11];
+    let chunks2: Vec<(usize, usize)> = wide_all.iter().flat_map(|&t| radixes.iter().map(move |&(_, ei)| (t, ei))).collect();
+    run_enum(rep, ctx, "enumerated:binary-boundaries", chunks2.len(), |ci, l, viol| {
+        let (ty, entry) = chunks2[ci];
+        for k in 0..INT_BITS[ty] {
+            for d in -40i32..=40 {
+                let raw = (1u128 << k).wrapping_add(d as i128 as u128);
+                for neg in [false, true] {
+                    if neg && !INT_SIGNED[ty] {
+                        continue;
+                    }
+                    let c = Case { ty, entry, value: gen::wrap_int(if neg { raw.wrapping_neg() } else { raw }, INT_BITS[ty], INT_SIGNED[ty]) };
+                    if let Err(f) = check_write(&c, l) {
+                        if filter_known(ctx, l, &f) {
+                            viol.push((f.message, case_json(&c)));
+                            return;
+                        }
+                    }
+                }
+            }
+        }
+    });
+    rep.exhaustive.push(format!("2^k + d (|d| <= 40) and negatives for the 32/64/128-bit and pointer-sized types x {} radices", radixes.len()));
     // (b) generated wider types x radices
     let wide: Vec<usize> = vec![2, 3, 4, 5, 8, 9, 10, 11];
     let n = ctx.n(400_000, 60_000_000);
